@@ -1,6 +1,8 @@
 import LoraVerif.Model.Mac
 import LoraVerif.Spec.Adr
 import LoraVerif.Lemmas.ExceptLemmas
+import LoraVerif.Props.C08
+import LoraVerif.Props.C09
 /-!
 # C12 — uplink header bits and ADR back-off follow the session history
 
@@ -11,8 +13,16 @@ By induction over any history the uplink bits are therefore exactly those of the
 ACK once after ≥1 accepted confirmed downlinks, ADR bit = ADR enabled, ADRACKReq ⇔ ADR ∧ cnt ≥ 64 ∧ a
 lower rate exists, step-down exactly at cnt = 96, 128, … to the next lower DEFINED rate, restart on any
 accepted downlink (`header_refines`, `timeout_refines`, `accept_refines`, `setAdr_refines`, `setDr_refines`).
+
+That induction is carried out in `history_header_bits` (over `Model/History.lean`, with the reference
+session tracker of `Lemmas/Ghost.lean` deciding which downlinks are accepted): along every run every
+data uplink carries the automaton's header bits and goes out at the automaton's data rate (`TxAt`: in
+regions with a dynamic plan always; in US915/AU915 when no join bias was configured — `NoBias`, an
+invariant of every history, `step_nobias`); the automaton moves by `afterSend` then `timeout` / `accept`
+(`AdrStep`), its data rate changing otherwise only by `set_datarate` or by an accepted Class A frame
+that carries a LinkADRReq (`answers_adr`: no other MAC command touches it; the commanded value: C08).
 -/
-open Model Spec.Adr
+open Model Spec.Adr Gen.Region
 
 namespace C12
 
@@ -127,6 +137,810 @@ example : (Auto.timeout { ackOwed := false, adrOn := true, cnt := 95, dr := 3 } 
 example : (Auto.timeout { ackOwed := false, adrOn := true, cnt := 96, dr := 3 } (fun d => if d > 0 then some (d - 1) else none)).dr = 3 := by decide
 example : (Auto.header { ackOwed := true, adrOn := true, cnt := 64, dr := 0 } (fun d => decide (d > 0))) = (true, true, false) := by decide
 
+
+/-! ## histories -/
+
+/-- a timeout of the automaton, unless the uplink counter space is exhausted (`fc` = the counter of
+the uplink just sent: at 2^32−1 the device reports `SessionExpired` and nothing moves) -/
+def tmo (r : RegionId) (fc : Nat) (a : Auto) : Auto :=
+  if fc = 0xFFFFFFFF then a else a.timeout (nextLowerDatarate r)
+
+/-- the uplink counter after the procedure ended -/
+def bump (fc : Nat) : Nat := if fc = 0xFFFFFFFF then fc else fc + 1
+
+/-- the frame carries a LinkADRReq (in FOpts, or in a port-0 payload) -/
+def hasLinkAdr (d : RxData) : Prop :=
+  (∃ c ∈ C08.cmdsOf d.fopts, c.1 = 3) ∨ (d.fport = some 0 ∧ ∃ c ∈ C08.cmdsOf d.payload, c.1 = 3)
+
+/-- the automaton after a frame accepted in a Class A window: `accept`, and the data rate is the old
+one unless the frame carried a LinkADRReq (then it is whatever the network commanded: C08) -/
+def AcceptedA (a : Auto) (d : RxData) (a' : Auto) : Prop :=
+  ∃ dr', (¬ hasLinkAdr d → dr' = a.dr) ∧ a' = (a.accept d.confirmed).setDr dr'
+
+abbrev DG := Gh × Auto
+
+/-- the frame goes out at data rate `dr` of region `r` (spreading factor and bandwidth of the TxConfig) -/
+def TxAt (r : RegionId) (dr : Nat) (t : TxOut) : Prop :=
+  ∃ d, getDatarate r dr = some d ∧ t.rf.sf = d.spreading_factor.factor ∧ t.rf.bwHz = d.bandwidth.hz
+
+/-- **one event, seen from the uplink header.**  Every data uplink carries the automaton's header
+bits — ACK iff an accepted confirmed downlink is unacknowledged, ADR iff ADR is enabled, ADRACKReq iff
+ADR is on, ≥ 64 uplinks passed without accepted downlink and a lower data rate exists — and the
+requested message type; then: no accepted downlink ⇒ `timeout` (count + 1, step down exactly at 96,
+128, …); a frame accepted in a Class A window ⇒ `accept` (count restarts, ACK owed if confirmed); a
+radio fault after the procedure counts as one more timeout.  Class C acceptances restart the count;
+`set_adr`, `set_datarate` are the automaton's; activation clears ACK and count. -/
+def AdrStep (r : RegionId) (nb : Bool) (g : DG) (ev : Ev) (out : Out) (g' : DG) : Prop :=
+  g'.1 = ghStep g.1 ev ∧
+  match ev, g.1 with
+  | .uplink _ _ conf fault rx1 rx2 mp1 mp2, some last =>
+    ∃ so resp dl, out = .up so resp dl ∧
+      (so.frame.ack, so.frame.adr, so.frame.adrAckReq) = g.2.header (lowerExists r) ∧ so.frame.confirmed = conf ∧
+      ((r.isFixed = false ∨ nb = true) → TxAt r g.2.dr so.tx) ∧
+      (match upRes last fault rx1 rx2 mp1 mp2, fault with
+       | .accepted _ d _, none => AcceptedA g.2.afterSend d g'.2
+       | .accepted _ d _, some _ => ∃ a1, AcceptedA g.2.afterSend d a1 ∧ g'.2 = tmo r (bump so.frame.fcnt) a1
+       | .ended, some _ => g'.2 = tmo r (bump so.frame.fcnt) (tmo r so.frame.fcnt g.2.afterSend)
+       | _, _ => g'.2 = tmo r so.frame.fcnt g.2.afterSend)
+  | .uplink _ _ _ _ _ _ _ _, none => out = .notJoined ∧ g'.2 = g.2
+  | .rxc v _ mp, some last =>
+    (match specRxc last v mp with
+     | some (_, d) => g'.2 = g.2.accept d.confirmed
+     | none => g'.2 = g.2)
+  | .rxc _ _ _, none => g'.2 = g.2
+  | .setAdr on, _ => g'.2 = g.2.setAdr on
+  | .setDr dr, _ => g'.2 = g.2.setDr dr
+  | .joinAbp _ _ _, _ => g'.2 = { g.2 with ackOwed := false, cnt := 0 }
+  | .joinOtaa _ _ _ _ _, _ => g'.2 = { g.2 with ackOwed := false, cnt := 0 }
+
+/-- the tie: the automaton's ADR switch and data rate are the configuration's (joined or not); ACK
+owed and count are the session's -/
+def AdrRel (r : RegionId) (nb : Bool) (m : MacState) (g : DG) : Prop :=
+  GhRel m g.1 ∧ MacWF m ∧ m.region.id = r ∧ g.2.adrOn = m.cfg.adrEnabled ∧ g.2.dr = m.cfg.dataRate ∧
+    (nb = true → ∀ p, m.region.plan = .fix p → p.jc.preferredSubband = none) ∧
+    ∀ s, m.st = .joined s → g.2.ackOwed = s.ackOwed ∧ g.2.cnt = s.adrAckCnt
+
+theorem absRel {m : MacState} {s : Session} (hst : m.st = .joined s) : 
+    (abs s m.cfg).adrOn = m.cfg.adrEnabled ∧ (abs s m.cfg).dr = m.cfg.dataRate ∧
+      ∀ s', m.st = .joined s' → (abs s m.cfg).ackOwed = s'.ackOwed ∧ (abs s m.cfg).cnt = s'.adrAckCnt := by
+  refine ⟨rfl, rfl, fun s' hs' => ?_⟩
+  rw [hst] at hs'; cases hs'; exact ⟨rfl, rfl⟩
+
+/-- `rx2_complete` at the level of the MAC state is the automaton's timeout (nothing at exhaustion) -/
+theorem timeoutState_abs (m : MacState) (s : Session) (hst : m.st = .joined s) :
+    ∃ s', (timeoutState m).st = .joined s' ∧ abs s' (timeoutState m).cfg = tmo m.region.id s.fcntUp (abs s m.cfg) ∧
+      s'.fcntUp = bump s.fcntUp ∧ (timeoutState m).region = m.region := by
+  have e : timeoutState m = { m with st := .joined (rx2Complete s m.cfg m.region.id).2.1, cfg := (rx2Complete s m.cfg m.region.id).2.2 } := by
+    unfold timeoutState macRx2Complete; simp only [hst]
+  rw [e]
+  refine ⟨(rx2Complete s m.cfg m.region.id).2.1, rfl, ?_, ?_, rfl⟩
+  · unfold tmo
+    by_cases hx : s.fcntUp = 0xFFFFFFFF
+    · simp only [hx, if_true]
+      unfold rx2Complete
+      simp [hx]
+    · simp only [hx, if_false]
+      exact timeout_refines s m.cfg m.region.id hx
+  · unfold bump
+    by_cases hx : s.fcntUp = 0xFFFFFFFF
+    · unfold rx2Complete; simp [hx]
+    · simp only [hx, if_false]
+      unfold rx2Complete
+      have hx' : (s.fcntUp == 0xFFFFFFFF) = false := by simp [hx]
+      simp only [hx', Bool.false_eq_true, if_false]
+      repeat' split
+      all_goals rfl
+
+
+/-- MAC commands never touch the ADR switch, and only a LinkADRReq can change the data rate -/
+theorem answers_adr {snr : Int} {cmds : List C08.Cmd} {st st' : C08.St} {as : List C08.Ans} (h : C08.Answers snr cmds st as st') :
+    st'.1.adrEnabled = st.1.adrEnabled ∧ ((∀ c ∈ cmds, c.1 ≠ 3) → st'.1.dataRate = st.1.dataRate) := by
+  induction h with
+  | nil st => exact ⟨rfl, fun _ => rfl⟩
+  | skip cid p rest st as st' _ _ ih => exact ⟨ih.1, fun hc => ih.2 (fun c hm => hc c (List.mem_cons_of_mem _ hm))⟩
+  | devStatus p rest st as st' _ ih => exact ⟨ih.1, fun hc => ih.2 (fun c hm => hc c (List.mem_cons_of_mem _ hm))⟩
+  | rxParam p rest st ans st1 as st' ho _ ih =>
+    obtain ⟨dl, f, _, _, _, h7, hn, _⟩ := ho
+    have e : st1.1.adrEnabled = st.1.adrEnabled ∧ st1.1.dataRate = st.1.dataRate := by
+      by_cases ha : ans = 7
+      · rw [h7 ha]; exact ⟨rfl, rfl⟩
+      · rw [hn ha]; exact ⟨rfl, rfl⟩
+    exact ⟨by rw [ih.1, e.1], fun hc => by rw [ih.2 (fun c hm => hc c (List.mem_cons_of_mem _ hm)), e.2]⟩
+  | rxTiming p rest st st1 as st' ho _ ih =>
+    obtain ⟨b, d, _, _, e⟩ := ho
+    subst e
+    exact ⟨ih.1, fun hc => ih.2 (fun c hm => hc c (List.mem_cons_of_mem _ hm))⟩
+  | newChannel p rest st ans st1 as st' hf ho _ ih =>
+    obtain ⟨idx, f, r, a, b, _, _, _, _, e, _⟩ := ho
+    exact ⟨by rw [ih.1, e], fun hc => by rw [ih.2 (fun c hm => hc c (List.mem_cons_of_mem _ hm)), e]⟩
+  | dlChannel p rest st ans st1 as st' hf ho _ ih =>
+    obtain ⟨idx, f, a, b, _, _, _, e, _⟩ := ho
+    exact ⟨by rw [ih.1, e], fun hc => by rw [ih.2 (fun c hm => hc c (List.mem_cons_of_mem _ hm)), e]⟩
+  | linkAdr ps p rest st ans st1 as st' hrest ho _ ih =>
+    obtain ⟨mask, rfu, b0, _, _, h7, hn, _⟩ := ho
+    constructor
+    · by_cases ha : ans = 7
+      · obtain ⟨d, pw, _, _, e, _⟩ := h7 ha
+        rw [ih.1, e]
+      · rw [ih.1, (hn ha).1]
+    · intro hc
+      exact absurd rfl (hc (3, p) (by simp))
+
+theorem acceptCmds_adr (pending : List Nat) (cfg : Config) (region : RegionState) (d : RxData) (snr : Int) (ctx : MacCtx)
+    (h : acceptCmds pending cfg region d snr false = .ok ctx) :
+    ctx.cfg.adrEnabled = cfg.adrEnabled ∧ (¬ hasLinkAdr d → ctx.cfg.dataRate = cfg.dataRate) := by
+  obtain ⟨as1, as2, cfg1, rg1, m1, ha1, ha2, _⟩ := C08.accept_answers pending cfg region d snr ctx h
+  obtain ⟨e1, d1⟩ := answers_adr ha1
+  simp only at e1 d1
+  by_cases hport : d.fport = some 0
+  · rw [if_pos hport] at ha2
+    obtain ⟨m2, ha2⟩ := ha2
+    obtain ⟨e2, d2⟩ := answers_adr ha2
+    simp only at e2 d2
+    refine ⟨by rw [e2, e1], fun hno => ?_⟩
+    rw [d2 (fun c hc e => hno (Or.inr ⟨hport, c, hc, e⟩)), d1 (fun c hc e => hno (Or.inl ⟨c, hc, e⟩))]
+  · rw [if_neg hport] at ha2
+    obtain ⟨_, e2, _⟩ := ha2
+    refine ⟨by rw [e2, e1], fun hno => ?_⟩
+    rw [e2, d1 (fun c hc e => hno (Or.inl ⟨c, hc, e⟩))]
+
+/-- a frame accepted in a Class A window, at the level of the MAC state -/
+theorem acceptState_abs (m : MacState) (s : Session) (d : RxData) (N : Nat) (snr : Int) (ctx : MacCtx)
+    (h : acceptCmds s.pending m.cfg m.region d snr false = .ok ctx) :
+    ∃ s', (acceptState m s d N ctx).st = .joined s' ∧ AcceptedA (abs s m.cfg) d (abs s' (acceptState m s d N ctx).cfg) ∧
+      s'.fcntUp = bump s.fcntUp := by
+  obtain ⟨ea, ed⟩ := acceptCmds_adr _ _ _ d snr ctx h
+  refine ⟨(acceptFinish s d N ctx).2.1, rfl, ⟨ctx.cfg.dataRate, fun hno => by rw [ed hno]; rfl, ?_⟩, ?_⟩
+  · unfold acceptState acceptFinish abs Auto.accept Auto.setDr
+    simp only []
+    split <;> simp [ea]
+  · unfold acceptFinish bump
+    simp only []
+    by_cases hx : s.fcntUp = 0xFFFFFFFF <;> simp [hx]
+
+/-- … between uplinks (Class C: commands ignored) -/
+theorem acceptStateC_abs (m : MacState) (s : Session) (d : RxData) (N : Nat) :
+    ∃ s', (acceptState m s d N { cfg := m.cfg, region := m.region, pending := s.pending }).st = .joined s' ∧
+      abs s' (acceptState m s d N { cfg := m.cfg, region := m.region, pending := s.pending }).cfg = (abs s m.cfg).accept d.confirmed := by
+  refine ⟨_, rfl, ?_⟩
+  unfold acceptState acceptFinish abs Auto.accept
+  simp only []
+  split <;> rfl
+
+
+
+/-- dynamic plans: the uplink goes out at the data rate `send` was given -/
+theorem selectTxChannel_dyn_dr {σ} (g : Rng σ) (rs rs' : RegionState) (p : DynPlan) (hp : rs.plan = .dyn p) (dr : DR)
+    (frame : FrameKind) (s s' : σ) (tx : TxChannel) (h : selectTxChannel g rs dr frame s = .ok (tx, rs', s')) : tx.dr = dr := by
+  unfold selectTxChannel at h
+  simp only [hp] at h
+  obtain ⟨drv, _, h⟩ := Except.bind_eq_ok h
+  cases frame with
+  | join =>
+    simp only at h
+    obtain ⟨⟨idx, s1⟩, _, h⟩ := Except.bind_eq_ok h
+    simp only at h
+    split at h
+    · obtain ⟨d, _, h⟩ := Except.bind_eq_ok h
+      cases Except.pure_eq_ok h; rfl
+    · cases h
+  | data =>
+    simp only at h
+    obtain ⟨ua, _, h⟩ := Except.bind_eq_ok h
+    obtain ⟨p', _, h⟩ := Except.bind_eq_ok h
+    obtain ⟨⟨c, s1⟩, _, h⟩ := Except.bind_eq_ok h
+    obtain ⟨d, _, h⟩ := Except.bind_eq_ok h
+    cases Except.pure_eq_ok h; rfl
+
+
+/-- in a region with a dynamic plan the uplink's TxConfig carries the configured data rate -/
+theorem macSend_txAt {σ} (g : Rng σ) (m m1 : MacState) (s : Session) (hst : m.st = .joined s) (hwf : MacWF m)
+    (hfix : m.region.id.isFixed = false) (data : List Nat) (fport : Nat) (conf : Bool) (rs rs' : σ) (so : SendOut)
+    (h : macSend g m data fport conf rs = .ok (some so, m1, rs')) : TxAt m.region.id m.cfg.dataRate so.tx := by
+  obtain ⟨dr, tx, region', pw, r1, r2, _, hdr, hsel, _, _, ho⟩ := macSend_joined g m s hst data fport conf rs rs' _ m1 h
+  simp only [Option.some.injEq] at ho
+  subst ho
+  obtain ⟨p, hp⟩ := (regionWF_isFixed hwf.region).2 hfix
+  have e := selectTxChannel_dyn_dr g m.region region' p hp dr .data rs rs' tx hsel
+  obtain ⟨_, hg, _, _⟩ := C09.selectTxChannel_legal g m.region region' dr .data rs rs' tx hwf.region hsel
+  have hup := (cfgWF_iff.mp hwf.cfg).1
+  obtain ⟨_, _, hlt⟩ := isUplink_get hup
+  have hn := (drOfNat_tot m.cfg.dataRate).elim hdr
+  rw [e, hn, Nat.mod_eq_of_lt (by omega)] at hg
+  exact ⟨tx.datarate, hg, rfl, rfl⟩
+
+
+/-- no join bias is configured (`set_join_bias` was never called; US915/AU915 only) -/
+def NoBias (rs : RegionState) : Prop := ∀ p, rs.plan = .fix p → p.jc.preferredSubband = none
+
+theorem availGetNext_nobias {σ} (g : Rng σ) (j j' : JoinChannels) (s s' : σ) (ch : Nat)
+    (h : availGetNext g j s = .ok (ch, j', s')) : j'.preferredSubband = j.preferredSubband := by
+  unfold availGetNext at h
+  simp only at h
+  obtain ⟨⟨c, s1⟩, _, h⟩ := Except.bind_eq_ok h
+  obtain ⟨a, _, h⟩ := Except.bind_eq_ok h
+  simp only [pure, Except.pure, Except.ok.injEq, Prod.mk.injEq] at h
+  obtain ⟨_, rfl, _⟩ := h
+  rfl
+
+theorem getNextChannel_nobias {σ} (g : Rng σ) (j j' : JoinChannels) (s s' : σ) (ch : Nat) (hn : j.preferredSubband = none)
+    (h : j.getNextChannel g s = .ok (ch, j', s')) : j'.preferredSubband = none := by
+  unfold JoinChannels.getNextChannel at h
+  simp only [hn] at h
+  have := availGetNext_nobias g _ j' s s' ch h
+  rw [this]
+
+/-- without a join bias a fixed plan sends a data frame at the data rate `send` was given, and no
+bias appears -/
+theorem selectTxChannel_nobias {σ} (g : Rng σ) (rs rs' : RegionState) (dr : DR) (frame : FrameKind) (s s' : σ)
+    (tx : TxChannel) (hn : NoBias rs) (h : selectTxChannel g rs dr frame s = .ok (tx, rs', s')) :
+    NoBias rs' ∧ (frame = .data → tx.dr = dr) := by
+  cases hp : rs.plan with
+  | dyn p =>
+    have hd := selectTxChannel_dyn_dr g rs rs' p hp dr frame s s' tx h
+    refine ⟨?_, fun _ => hd⟩
+    unfold selectTxChannel at h
+    simp only [hp] at h
+    obtain ⟨drv, _, h⟩ := Except.bind_eq_ok h
+    cases frame with
+    | join =>
+      simp only at h
+      obtain ⟨⟨idx, s1⟩, _, h⟩ := Except.bind_eq_ok h
+      simp only at h
+      split at h
+      · obtain ⟨d, _, h⟩ := Except.bind_eq_ok h
+        cases Except.pure_eq_ok h
+        exact hn
+      · cases h
+    | data =>
+      simp only at h
+      obtain ⟨ua, _, h⟩ := Except.bind_eq_ok h
+      obtain ⟨p', _, h⟩ := Except.bind_eq_ok h
+      obtain ⟨⟨c, s1⟩, _, h⟩ := Except.bind_eq_ok h
+      obtain ⟨d, _, h⟩ := Except.bind_eq_ok h
+      cases Except.pure_eq_ok h
+      intro q hq; cases hq
+  | fix p =>
+    have hpn := hn p hp
+    unfold selectTxChannel at h
+    simp only [hp] at h
+    obtain ⟨⟨dr', channel, jc, mask, s1⟩, hsel, h⟩ := Except.bind_eq_ok h
+    simp only at h
+    obtain ⟨oi, _, h⟩ := Except.bind_eq_ok h
+    obtain ⟨d, _, h⟩ := Except.bind_eq_ok h
+    have hres : rs'.plan = .fix { mask := mask, jc := jc } := by
+      split at h
+      · cases Except.pure_eq_ok h; rfl
+      · cases h
+    suffices hs : jc.preferredSubband = none ∧ (frame = .data → dr' = dr) by
+      refine ⟨fun q hq => ?_, fun hf => ?_⟩
+      · rw [hres] at hq; cases hq; exact hs.1
+      · split at h
+        · cases Except.pure_eq_ok h; exact hs.2 hf
+        · cases h
+    cases frame with
+    | join =>
+      simp only at hsel
+      obtain ⟨⟨ch, jc', s2⟩, hg, hsel⟩ := Except.bind_eq_ok hsel
+      simp only [pure, Except.pure, Except.ok.injEq, Prod.mk.injEq] at hsel
+      obtain ⟨_, _, rfl, _, _⟩ := hsel
+      exact ⟨getNextChannel_nobias g p.jc jc' s s2 ch hpn hg, fun hf => by cases hf⟩
+    | data =>
+      simp only at hsel
+      have hb : p.jc.hasBiasAndNotExhausted = false := by simp [JoinChannels.hasBiasAndNotExhausted, hpn]
+      simp only [hb, Bool.false_eq_true, if_false, pure, Except.pure, bind, Except.bind] at hsel
+      have hfd : p.jc.firstDataChannel g s = (none, p.jc, s) := by simp [JoinChannels.firstDataChannel, hpn]
+      simp only [hfd] at hsel
+      split at hsel
+      · cases hsel
+      · split at hsel
+        · cases hsel
+        · split at hsel
+          · split at hsel
+            · cases hsel
+            · split at hsel
+              · cases hsel
+              · split at hsel
+                · cases hsel
+                · simp only [Except.ok.injEq, Prod.mk.injEq] at hsel
+                  obtain ⟨rfl, _, rfl, _, _⟩ := hsel
+                  exact ⟨hpn, fun _ => rfl⟩
+          · split at hsel
+            · cases hsel
+            · split at hsel
+              · cases hsel
+              · split at hsel
+                · cases hsel
+                · simp only [Except.ok.injEq, Prod.mk.injEq] at hsel
+                  obtain ⟨rfl, _, rfl, _, _⟩ := hsel
+                  exact ⟨hpn, fun _ => rfl⟩
+
+
+theorem noBias_dyn {rs : RegionState} {p : DynPlan} (hp : rs.plan = .dyn p) : NoBias rs := by
+  intro q hq; rw [hp] at hq; cases hq
+
+theorem noBias_init (r : RegionId) : NoBias (RegionState.init r) := by
+  intro p hp
+  unfold RegionState.init at hp
+  simp only at hp
+  split at hp
+  · cases hp; rfl
+  · cases hp
+
+theorem channelMaskSet_nobias (rs : RegionState) (m : Mask) (h : NoBias rs) : NoBias (channelMaskSet rs m) := by
+  unfold channelMaskSet
+  cases hp : rs.plan with
+  | dyn p => exact noBias_dyn (p := { p with mask := m }) rfl
+  | fix p =>
+    intro q hq
+    simp only [Plan.fix.injEq] at hq
+    cases hq
+    exact h p hp
+
+theorem processJoinAccept_nobias (rs rs' : RegionState) (cf : Option CfList) (h : NoBias rs)
+    (hp : processJoinAccept rs cf = .ok rs') : NoBias rs' := by
+  unfold processJoinAccept at hp
+  split at hp
+  · rename_i p freqs hpl
+    obtain ⟨chans, _, hp⟩ := Except.bind_eq_ok hp
+    cases Except.pure_eq_ok hp
+    exact noBias_dyn (p := { p with channels := chans }) rfl
+  · rename_i p m hpl
+    cases Except.pure_eq_ok hp
+    intro q hq
+    simp only [Plan.fix.injEq] at hq
+    cases hq
+    exact h p hpl
+  · cases Except.pure_eq_ok hp; exact h
+
+theorem otaaAccept_nobias (m m' : MacState) (j : RxJoinAccept) (h : NoBias m.region) (ha : otaaAccept m j = .ok m') :
+    NoBias m'.region := by
+  unfold otaaAccept at ha
+  obtain ⟨region, hreg, ha⟩ := Except.bind_eq_ok ha
+  obtain ⟨dd, _, ha⟩ := Except.bind_eq_ok ha
+  cases Except.pure_eq_ok ha
+  exact processJoinAccept_nobias m.region region j.cfList h hreg
+
+theorem answers_nobias {snr : Int} {cmds : List C08.Cmd} {st st' : C08.St} {as : List C08.Ans} (h : C08.Answers snr cmds st as st')
+    (hn : NoBias st.2.1) : NoBias st'.2.1 := by
+  induction h with
+  | nil st => exact hn
+  | skip cid p rest st as st' _ _ ih => exact ih hn
+  | devStatus p rest st as st' _ ih => exact ih hn
+  | rxParam p rest st ans st1 as st' ho _ ih =>
+    obtain ⟨dl, f, _, _, e, _⟩ := ho
+    exact ih (by rw [e]; exact hn)
+  | rxTiming p rest st st1 as st' ho _ ih =>
+    obtain ⟨b, d, _, _, e⟩ := ho
+    subst e; exact ih hn
+  | newChannel p rest st ans st1 as st' hf ho _ ih =>
+    obtain ⟨idx, f, r, a, b, _, _, _, _, _, _, _, hno, hyes⟩ := ho
+    apply ih
+    cases hab : (a && b) with
+    | false => rw [hno hab]; exact hn
+    | true =>
+      obtain ⟨pl, m, _, _, _, hh⟩ := hyes hab
+      rcases hh with ⟨_, _, e⟩ | ⟨_, _, _, _, e⟩ <;> rw [e] <;> exact noBias_dyn (p := _) rfl
+  | dlChannel p rest st ans st1 as st' hf ho _ ih =>
+    obtain ⟨idx, f, a, b, _, _, _, _, _, _, hno, hyes⟩ := ho
+    apply ih
+    cases hab : (a && b) with
+    | false => rw [hno hab]; exact hn
+    | true =>
+      obtain ⟨pl, c, _, _, _, _, _, e⟩ := hyes hab
+      rw [e]; exact noBias_dyn (p := _) rfl
+  | linkAdr ps p rest st ans st1 as st' hrest ho _ ih =>
+    obtain ⟨mask, rfu, b0, _, _, h7, hnn, _⟩ := ho
+    apply ih
+    by_cases ha : ans = 7
+    · obtain ⟨d, pw, _, _, _, e⟩ := h7 ha
+      rw [e]; exact channelMaskSet_nobias _ _ hn
+    · rw [(hnn ha).2]; exact hn
+
+theorem acceptCmds_nobias (pending : List Nat) (cfg : Config) (region : RegionState) (d : RxData) (snr : Int) (ctx : MacCtx)
+    (hn : NoBias region) (h : acceptCmds pending cfg region d snr false = .ok ctx) : NoBias ctx.region := by
+  obtain ⟨as1, as2, cfg1, rg1, m1, ha1, ha2, _⟩ := C08.accept_answers pending cfg region d snr ctx h
+  have h1 := answers_nobias ha1 hn
+  by_cases hport : d.fport = some 0
+  · rw [if_pos hport] at ha2
+    obtain ⟨m2, ha2⟩ := ha2
+    exact answers_nobias ha2 h1
+  · rw [if_neg hport] at ha2
+    rw [ha2.2.2]; exact h1
+
+
+theorem acceptState_region (m : MacState) (s : Session) (d : RxData) (N : Nat) (ctx : MacCtx) :
+    (acceptState m s d N ctx).region = ctx.region := by
+  unfold acceptState acceptFinish; simp only []; split <;> rfl
+
+theorem timeoutState_region (m : MacState) : (timeoutState m).region = m.region := by
+  unfold timeoutState macRx2Complete
+  cases m.st <;> rfl
+
+/-- no step configures a join bias -/
+theorem step_nobias {σ} (g : Rng σ) (m m' : MacState) (rs rs' : σ) (ev : Ev) (out : Out) (gh : Gh)
+    (hr : GhRel m gh) (hv : evOk ev = true) (hn : NoBias m.region) (h : step g (m, rs) ev = .ok ((m', rs'), out)) :
+    NoBias m'.region := by
+  cases ev with
+  | joinAbp da nwk app =>
+    simp only [step, pure, Except.pure, Except.ok.injEq, Prod.mk.injEq] at h
+    obtain ⟨⟨rfl, _⟩, _⟩ := h; exact hn
+  | setDr dr =>
+    simp only [step, pure, Except.pure, Except.ok.injEq, Prod.mk.injEq] at h
+    obtain ⟨⟨rfl, _⟩, _⟩ := h; exact hn
+  | setAdr on =>
+    simp only [step, pure, Except.pure, Except.ok.injEq, Prod.mk.injEq] at h
+    obtain ⟨⟨rfl, _⟩, _⟩ := h
+    have : (macSetAdr m on).region = m.region := by unfold macSetAdr; cases m.st <;> cases on <;> rfl
+    rw [this]; exact hn
+  | joinOtaa fault rx1 rx2 mp1 mp2 =>
+    obtain ⟨jo, m1, o, hj, _, _, ht⟩ := step_joinOtaa_inv g m m' rs rs' fault rx1 rx2 mp1 mp2 out h
+    obtain ⟨dr, tx, region', pw, r1, r2, _, hsel, hm1, _, _⟩ := macJoinOtaa_ok g m rs rs' jo m1 hj
+    have hn1 : NoBias m1.region := by rw [hm1]; exact (selectTxChannel_nobias g m.region region' dr .join _ rs' tx hn hsel).1
+    cases hjr : joinRes fault rx1 rx2 with
+    | some j => simp only [hjr] at ht; exact otaaAccept_nobias m1 m' j hn1 ht.1
+    | none => simp only [hjr] at ht; rw [ht.1]; exact hn1
+  | rxc v snr mp =>
+    cases gh with
+    | none =>
+      obtain ⟨rfl, _, _⟩ := step_rxc_notJoined g m m' rs rs' hr v snr mp out h
+      exact hn
+    | some last =>
+      obtain ⟨s, hst, rfl, hl⟩ := hr
+      have hvv : viewOk v = true := by simpa [evOk] using hv
+      obtain ⟨_, rf, _, ht⟩ := step_rxc_joined g m m' rs rs' s hst hl v snr mp hvv out h
+      cases hs : specRxc s.fcntDown v mp with
+      | none => simp only [hs] at ht; rw [ht.1]; exact hn
+      | some p =>
+        obtain ⟨N, d⟩ := p
+        simp only [hs] at ht
+        rw [ht.1, acceptState_region]; exact hn
+  | uplink data fport conf fault rx1 rx2 mp1 mp2 =>
+    cases gh with
+    | none =>
+      obtain ⟨rfl, _, _⟩ := step_uplink_notJoined g m m' rs rs' hr data fport conf fault rx1 rx2 mp1 mp2 out h
+      exact hn
+    | some last =>
+      obtain ⟨s, hst, rfl, hl⟩ := hr
+      have hvv : rxOk rx1 = true ∧ rxOk rx2 = true := by simpa [evOk] using hv
+      obtain ⟨so, m1, hsend, _, hst1, _, ht⟩ :=
+        step_uplink_joined g m m' rs rs' s hst hl data fport conf fault rx1 rx2 mp1 mp2 hvv.1 hvv.2 out h
+      obtain ⟨dr, tx, region', pw, r1, r2, _, _, hsel, hm1, _, _⟩ := macSend_joined g m s hst data fport conf rs rs' _ m1 hsend
+      have hn1 : NoBias m1.region := by rw [hm1]; exact (selectTxChannel_nobias g m.region region' dr .data rs rs' tx hn hsel).1
+      have hacc : ∀ N d snr ctx, acceptCmds (sentSession s conf).pending m1.cfg m1.region d snr false = .ok ctx →
+          NoBias (acceptState m1 (sentSession s conf) d N ctx).region := by
+        intro N d snr ctx hc
+        rw [acceptState_region]; exact acceptCmds_nobias _ _ _ d snr ctx hn1 hc
+      unfold UplinkTail at ht
+      cases fault with
+      | none =>
+        simp only at ht
+        cases hsc : specCycle (sentSession s conf).fcntDown rx1 rx2 mp1 mp2 with
+        | accepted N d snr => simp only [hsc] at ht; obtain ⟨ctx, hc, rfl, _⟩ := ht; exact hacc N d snr ctx hc
+        | ended => simp only [hsc] at ht; rw [ht.1, timeoutState_region]; exact hn1
+        | nothing => simp only [hsc] at ht; rw [ht.1, timeoutState_region]; exact hn1
+      | some k =>
+        simp only at ht
+        obtain ⟨m2, hm2, rfl, _⟩ := ht
+        rw [faultAfterTx_eq, timeoutState_region]
+        cases hsc : specFaulted (sentSession s conf).fcntDown k rx1 rx2 mp1 mp2 with
+        | accepted N d snr => simp only [hsc] at hm2; obtain ⟨ctx, hc, rfl⟩ := hm2; exact hacc N d snr ctx hc
+        | ended => simp only [hsc] at hm2; rw [hm2, timeoutState_region]; exact hn1
+        | nothing => simp only [hsc] at hm2; rw [hm2]; exact hn1
+
+/-- without a join bias the uplink's TxConfig carries the configured data rate (in every region) -/
+theorem macSend_txAt_nobias {σ} (g : Rng σ) (m m1 : MacState) (s : Session) (hst : m.st = .joined s) (hwf : MacWF m)
+    (hnb : NoBias m.region) (data : List Nat) (fport : Nat) (conf : Bool) (rs rs' : σ) (so : SendOut)
+    (h : macSend g m data fport conf rs = .ok (some so, m1, rs')) : TxAt m.region.id m.cfg.dataRate so.tx := by
+  obtain ⟨dr, tx, region', pw, r1, r2, _, hdr, hsel, _, _, ho⟩ := macSend_joined g m s hst data fport conf rs rs' _ m1 h
+  simp only [Option.some.injEq] at ho
+  subst ho
+  have e := (selectTxChannel_nobias g m.region region' dr .data rs rs' tx hnb hsel).2 rfl
+  obtain ⟨_, hg, _, _⟩ := C09.selectTxChannel_legal g m.region region' dr .data rs rs' tx hwf.region hsel
+  have hup := (cfgWF_iff.mp hwf.cfg).1
+  obtain ⟨_, _, hlt⟩ := isUplink_get hup
+  have hn := (drOfNat_tot m.cfg.dataRate).elim hdr
+  rw [e, hn, Nat.mod_eq_of_lt (by omega)] at hg
+  exact ⟨tx.datarate, hg, rfl, rfl⟩
+
+
+theorem otaaAccept_cfg (m m' : MacState) (j : RxJoinAccept) (h : otaaAccept m j = .ok m') :
+    m'.cfg.adrEnabled = m.cfg.adrEnabled ∧ m'.cfg.dataRate = m.cfg.dataRate := by
+  unfold otaaAccept at h
+  obtain ⟨region, _, h⟩ := Except.bind_eq_ok h
+  obtain ⟨dd, _, h⟩ := Except.bind_eq_ok h
+  cases Except.pure_eq_ok h
+  simp only []
+  constructor <;> (repeat' split) <;> rfl
+
+theorem macSetAdr_cfg (m : MacState) (on : Bool) : (macSetAdr m on).cfg = { m.cfg with adrEnabled := on } := by
+  unfold macSetAdr
+  cases m.st <;> cases on <;> rfl
+
+theorem auto_eq_abs {a : Auto} {s : Session} {cfg : Config} (h1 : a.adrOn = cfg.adrEnabled) (h2 : a.dr = cfg.dataRate)
+    (h3 : a.ackOwed = s.ackOwed) (h4 : a.cnt = s.adrAckCnt) : a = abs s cfg := by
+  cases a; simp only [abs] at *; simp [h1, h2, h3, h4]
+
+theorem header_descOf (s : Session) (cfg : Config) (r : RegionId) (data : List Nat) (fport : Nat) (conf : Bool) :
+    ((descOf s cfg r data fport conf).ack, (descOf s cfg r data fport conf).adr, (descOf s cfg r data fport conf).adrAckReq)
+      = (abs s cfg).header (lowerExists r) ∧ (descOf s cfg r data fport conf).confirmed = conf ∧
+      (descOf s cfg r data fport conf).fcnt = s.fcntUp := by
+  refine ⟨?_, rfl, rfl⟩
+  have e64 : Gen.Session.ADR_ACK_LIMIT.toNat = 64 := by decide
+  simp [descOf, abs, Auto.header, lowerExists, adrAckLimit, e64]
+
+theorem step_adrRel {σ} (g : Rng σ) (r : RegionId) (m m' : MacState) (rs rs' : σ) (ev : Ev) (out : Out) (dg : DG)
+    (nb : Bool) (hr : AdrRel r nb m dg) (hv : evOk ev = true ∧ validEv r ev = true)
+    (h : step g (m, rs) ev = .ok ((m', rs'), out)) : ∃ dg', AdrStep r nb dg ev out dg' ∧ AdrRel r nb m' dg' := by
+  obtain ⟨gh, a⟩ := dg
+  obtain ⟨hgh, hwf, hid, hon, hdr, hnb, hses⟩ := hr
+  simp only at hgh hon hdr hnb hses
+  have hnb' : nb = true → NoBias m'.region := fun e => step_nobias g m m' rs rs' ev out gh hgh hv.1 (hnb e) h
+  have hgh' := step_ghRel g m m' rs rs' ev out gh hgh hv.1 h
+  have hk : Keeps m m' := (step_safe g m rs ev hwf (by unfold ValidEv; rw [hid]; exact hv.2)).elim h
+  have hid' : m'.region.id = r := by rw [hk.2.1, hid]
+  suffices hs : ∃ a', (AdrStep r nb (gh, a) ev out (ghStep gh ev, a')) ∧ a'.adrOn = m'.cfg.adrEnabled ∧ a'.dr = m'.cfg.dataRate ∧
+      (∀ s, m'.st = .joined s → a'.ackOwed = s.ackOwed ∧ a'.cnt = s.adrAckCnt) by
+    obtain ⟨a', h1, h2, h3, h4⟩ := hs
+    exact ⟨(ghStep gh ev, a'), h1, hgh', hk.1, hid', h2, h3, hnb', h4⟩
+  cases ev with
+  | joinAbp da nwk app =>
+    simp only [step, pure, Except.pure, Except.ok.injEq, Prod.mk.injEq] at h
+    obtain ⟨⟨rfl, _⟩, _⟩ := h
+    refine ⟨{ a with ackOwed := false, cnt := 0 }, ⟨rfl, by cases gh <;> rfl⟩, hon, hdr, ?_⟩
+    intro s hs
+    simp only [macJoinAbp, JoinState.joined.injEq] at hs
+    subst hs; exact ⟨rfl, rfl⟩
+  | setDr dr =>
+    simp only [step, pure, Except.pure, Except.ok.injEq, Prod.mk.injEq] at h
+    obtain ⟨⟨rfl, _⟩, _⟩ := h
+    exact ⟨a.setDr dr, ⟨rfl, by cases gh <;> rfl⟩, hon, rfl, hses⟩
+  | setAdr on =>
+    simp only [step, pure, Except.pure, Except.ok.injEq, Prod.mk.injEq] at h
+    obtain ⟨⟨rfl, _⟩, _⟩ := h
+    refine ⟨a.setAdr on, ⟨rfl, by cases gh <;> rfl⟩, ?_, ?_, ?_⟩
+    · rw [macSetAdr_cfg]; rfl
+    · rw [macSetAdr_cfg]; exact hdr
+    · intro s' hs'
+      by_cases hj : ∃ s, m.st = .joined s
+      · obtain ⟨s, hs⟩ := hj
+        obtain ⟨ho, hc⟩ := hses s hs
+        unfold macSetAdr at hs'
+        cases on
+        · simp only [hs, JoinState.joined.injEq] at hs'
+          subst hs'
+          exact ⟨ho, by simp [Auto.setAdr]⟩
+        · simp only [hs, JoinState.joined.injEq] at hs'
+          subst hs'
+          exact ⟨ho, by simp [Auto.setAdr, hc]⟩
+      · rw [(macSetAdr_st m on).2 (fun s hs => hj ⟨s, hs⟩)] at hs'
+        exact absurd ⟨s', hs'⟩ hj
+  | joinOtaa fault rx1 rx2 mp1 mp2 =>
+    obtain ⟨jo, m1, o, _, hst1, hcfg1, ht⟩ := step_joinOtaa_inv g m m' rs rs' fault rx1 rx2 mp1 mp2 out h
+    refine ⟨{ a with ackOwed := false, cnt := 0 }, ⟨rfl, by cases gh <;> rfl⟩, ?_⟩
+    cases hj : joinRes fault rx1 rx2 with
+    | some j =>
+      simp only [hj] at ht
+      obtain ⟨e1, e2⟩ := otaaAccept_cfg m1 m' j ht.1
+      refine ⟨by rw [e1, hcfg1]; exact hon, by rw [e2, hcfg1]; exact hdr, ?_⟩
+      intro s hs
+      rw [otaaAccept_st m1 m' j ht.1] at hs
+      simp only [JoinState.joined.injEq] at hs
+      subst hs; exact ⟨rfl, rfl⟩
+    | none =>
+      simp only [hj] at ht
+      obtain ⟨rfl, _⟩ := ht
+      refine ⟨by rw [hcfg1]; exact hon, by rw [hcfg1]; exact hdr, ?_⟩
+      intro s hs; rw [hst1] at hs; cases hs
+  | rxc v snr mp =>
+    cases gh with
+    | none =>
+      obtain ⟨rfl, _, _⟩ := step_rxc_notJoined g m m' rs rs' hgh v snr mp out h
+      exact ⟨a, ⟨rfl, rfl⟩, hon, hdr, hses⟩
+    | some last =>
+      obtain ⟨s, hst, rfl, hl⟩ := hgh
+      have hvv : viewOk v = true := by simpa [evOk] using hv.1
+      obtain ⟨_, rf, _, ht⟩ := step_rxc_joined g m m' rs rs' s hst hl v snr mp hvv out h
+      obtain ⟨ho, hc⟩ := hses s hst
+      have ha : a = abs s m.cfg := auto_eq_abs hon hdr ho hc
+      cases hs : specRxc s.fcntDown v mp with
+      | none =>
+        simp only [hs] at ht
+        obtain ⟨rfl, _⟩ := ht
+        exact ⟨a, ⟨rfl, by simp only [hs]⟩, hon, hdr, hses⟩
+      | some p =>
+        obtain ⟨N, d⟩ := p
+        simp only [hs] at ht
+        obtain ⟨rfl, _⟩ := ht
+        obtain ⟨s', hs', habs⟩ := acceptStateC_abs m s d N
+        refine ⟨a.accept d.confirmed, ⟨rfl, by simp only [hs]⟩, ?_⟩
+        rw [ha, ← habs]
+        exact absRel hs'
+  | uplink data fport conf fault rx1 rx2 mp1 mp2 =>
+    cases gh with
+    | none =>
+      obtain ⟨rfl, _, rfl⟩ := step_uplink_notJoined g m m' rs rs' hgh data fport conf fault rx1 rx2 mp1 mp2 out h
+      exact ⟨a, ⟨rfl, rfl, rfl⟩, hon, hdr, hses⟩
+    | some last =>
+      obtain ⟨s, hst, rfl, hl⟩ := hgh
+      have hvv : rxOk rx1 = true ∧ rxOk rx2 = true := by simpa [evOk] using hv.1
+      have hval : (fport = 0 → data = []) ∧ data.length ≤ 222 := by
+        have := hv.2
+        simp only [validEv, Bool.and_eq_true, Bool.or_eq_true, bne_iff_ne, ne_eq, List.isEmpty_iff, decide_eq_true_eq] at this
+        exact ⟨fun e => by rcases this.1.1.1 with h0 | h0; exact absurd e h0; exact h0, this.1.1.2⟩
+      obtain ⟨so, m1, hsend, hfr, hst1, hcfg1, ht⟩ :=
+        step_uplink_joined g m m' rs rs' s hst hl data fport conf fault rx1 rx2 mp1 mp2 hvv.1 hvv.2 out h
+      have hk1 : Keeps m m1 := (macSend_safe g m data fport conf rs hwf hval.1 hval.2).elim hsend
+      have hid1 : m1.region.id = r := by rw [hk1.2.1, hid]
+      obtain ⟨ho, hc⟩ := hses s hst
+      have ha : a = abs s m.cfg := auto_eq_abs hon hdr ho hc
+      obtain ⟨hhead, hconf, hfc⟩ := header_descOf s m.cfg m.region.id data fport conf
+      rw [← hfr, hid, ← ha] at hhead
+      rw [← hfr] at hconf hfc
+      have hsent : abs (sentSession s conf) m1.cfg = a.afterSend := by rw [hcfg1, ha]; rfl
+      have htx : (r.isFixed = false ∨ nb = true) → TxAt r a.dr so.tx := by
+        intro hfx
+        have hno : NoBias m.region := by
+          rcases hfx with hfx | hfx
+          · obtain ⟨p, hp⟩ := (regionWF_isFixed hwf.region).2 (by rw [hid]; exact hfx)
+            exact noBias_dyn hp
+          · exact hnb hfx
+        have := macSend_txAt_nobias g m m1 s hst hwf hno data fport conf rs rs' so hsend
+        rw [hid, ← hdr] at this
+        exact this
+      have hfd : (sentSession s conf).fcntDown = s.fcntDown := rfl
+      have hfu : (sentSession s conf).fcntUp = so.frame.fcnt := by rw [hfc]; rfl
+      -- the shape of the output
+      have hout : ∃ resp dl, out = .up so resp dl := by
+        unfold UplinkTail at ht
+        cases fault with
+        | none =>
+          simp only at ht
+          cases hsc : specCycle (sentSession s conf).fcntDown rx1 rx2 mp1 mp2 with
+          | accepted N d snr => simp only [hsc] at ht; obtain ⟨ctx, _, _, e⟩ := ht; exact ⟨_, _, e⟩
+          | ended => simp only [hsc] at ht; exact ⟨_, _, ht.2⟩
+          | nothing => simp only [hsc] at ht; exact ⟨_, _, ht.2⟩
+        | some k =>
+          simp only at ht
+          obtain ⟨m2, _, _, e⟩ := ht
+          exact ⟨_, _, e⟩
+      obtain ⟨resp, dl, hout⟩ := hout
+      -- one timeout of a joined state with region r
+      have tmo1 : ∀ (mm : MacState) (ss : Session), mm.st = .joined ss → mm.region.id = r →
+          ∃ s', (timeoutState mm).st = .joined s' ∧ abs s' (timeoutState mm).cfg = tmo r ss.fcntUp (abs ss mm.cfg) ∧
+            s'.fcntUp = bump ss.fcntUp ∧ (timeoutState mm).region.id = r := by
+        intro mm ss hss hrr
+        obtain ⟨s', h1, h2, h3, h4⟩ := timeoutState_abs mm ss hss
+        exact ⟨s', h1, by rw [h2, hrr], h3, by rw [h4, hrr]⟩
+      cases hu : upRes s.fcntDown fault rx1 rx2 mp1 mp2 with
+      | nothing =>
+        have hm' : m' = timeoutState m1 := by
+          unfold UplinkTail at ht
+          unfold upRes at hu
+          cases fault with
+          | none => simp only at ht hu; rw [hfd, hu] at ht; exact ht.1
+          | some k =>
+            simp only at ht hu; rw [hfd, hu] at ht
+            obtain ⟨m2, e2, e, _⟩ := ht
+            rw [e, e2]; rfl
+        subst hm'
+        obtain ⟨s', hs', habs, _, _⟩ := tmo1 m1 _ hst1 hid1
+        rw [hsent, hfu] at habs
+        refine ⟨tmo r so.frame.fcnt a.afterSend, ⟨rfl, so, resp, dl, hout, hhead, hconf, htx, ?_⟩, ?_⟩
+        · simp only [hu]
+        · rw [← habs]; exact absRel hs'
+      | ended =>
+        cases fault with
+        | none =>
+          have hm' : m' = timeoutState m1 := by
+            unfold UplinkTail at ht
+            unfold upRes at hu
+            simp only at ht hu; rw [hfd, hu] at ht; exact ht.1
+          subst hm'
+          obtain ⟨s', hs', habs, _, _⟩ := tmo1 m1 _ hst1 hid1
+          rw [hsent, hfu] at habs
+          refine ⟨tmo r so.frame.fcnt a.afterSend, ⟨rfl, so, resp, dl, hout, hhead, hconf, htx, ?_⟩, ?_⟩
+          · simp only [hu]
+          · rw [← habs]; exact absRel hs'
+        | some k =>
+          have hm' : m' = timeoutState (timeoutState m1) := by
+            unfold UplinkTail at ht
+            unfold upRes at hu
+            simp only at ht hu; rw [hfd, hu] at ht
+            obtain ⟨m2, e2, e, _⟩ := ht
+            rw [e, e2]; rfl
+          subst hm'
+          obtain ⟨s1', hs1', habs1, hfu1, hid2⟩ := tmo1 m1 _ hst1 hid1
+          obtain ⟨s2', hs2', habs2, _, _⟩ := tmo1 _ _ hs1' hid2
+          rw [habs1, hsent, hfu1, hfu] at habs2
+          refine ⟨tmo r (bump so.frame.fcnt) (tmo r so.frame.fcnt a.afterSend), ⟨rfl, so, resp, dl, hout, hhead, hconf, htx, ?_⟩, ?_⟩
+          · simp only [hu]
+          · rw [← habs2]; exact absRel hs2'
+      | accepted N d snr =>
+        cases fault with
+        | none =>
+          have hctx : ∃ ctx, acceptCmds (sentSession s conf).pending m1.cfg m1.region d snr false = .ok ctx ∧
+              m' = acceptState m1 (sentSession s conf) d N ctx := by
+            unfold UplinkTail at ht
+            unfold upRes at hu
+            simp only at ht hu
+            rw [hfd, hu] at ht
+            obtain ⟨ctx, hc, e, _⟩ := ht
+            exact ⟨ctx, hc, e⟩
+          obtain ⟨ctx, hcx, rfl⟩ := hctx
+          obtain ⟨s', hs', hacc, _⟩ := acceptState_abs m1 _ d N snr ctx hcx
+          rw [hsent] at hacc
+          refine ⟨_, ⟨rfl, so, resp, dl, hout, hhead, hconf, htx, ?_⟩, absRel hs'⟩
+          simp only [hu]
+          exact hacc
+        | some k =>
+          have hctx : ∃ ctx, acceptCmds (sentSession s conf).pending m1.cfg m1.region d snr false = .ok ctx ∧
+              m' = timeoutState (acceptState m1 (sentSession s conf) d N ctx) := by
+            unfold UplinkTail at ht
+            unfold upRes at hu
+            simp only at ht hu
+            rw [hfd, hu] at ht
+            obtain ⟨m2, ⟨ctx, hc, e2⟩, e, _⟩ := ht
+            exact ⟨ctx, hc, by rw [e, e2]; rfl⟩
+          obtain ⟨ctx, hcx, rfl⟩ := hctx
+          obtain ⟨s1', hs1', hacc, hfu1⟩ := acceptState_abs m1 _ d N snr ctx hcx
+          rw [hsent] at hacc
+          have hidA : (acceptState m1 (sentSession s conf) d N ctx).region.id = r := by
+            obtain ⟨_, _, _, _, hreg⟩ := timeoutState_abs _ s1' hs1'
+            rw [← hreg]; exact hid'
+          obtain ⟨s2', hs2', habs2, _, _⟩ := tmo1 _ _ hs1' hidA
+          rw [hfu1, hfu] at habs2
+          refine ⟨_, ⟨rfl, so, resp, dl, hout, hhead, hconf, htx, ?_⟩, absRel hs2'⟩
+          simp only [hu]
+          exact ⟨_, hacc, habs2⟩
+
+/-- **C12 over every history**: along every run of valid events from a well-formed state the
+reference automaton describes, every data uplink carries the automaton's header bits, and the
+automaton moves as `AdrStep` says — the data rate steps down exactly when the count of uplinks without
+accepted downlink reaches 96, 128, … with ADR on (`Auto.timeout`, `stepdown_only_at`), any accepted
+downlink restarts the count, the ACK bit is set in the first uplink after one or more accepted
+confirmed downlinks and in no other. -/
+theorem history_header_bits {σ} (g : Rng σ) (r : RegionId) (nb : Bool) (m : MacState) (rs : σ) (dg : DG) (hr : AdrRel r nb m dg)
+    (evs : List Ev) (hv : ∀ ev ∈ evs, evOk ev = true ∧ validEv r ev = true) (ms' : MacState × σ) (outs : List Out)
+    (h : run g (m, rs) evs = .ok (ms', outs)) : TraceR (AdrStep r nb) dg (evs.zip outs) := by
+  have hc := run_chain g (m, rs) ms' evs outs h
+  exact chain_traceR g (AdrStep r nb) (AdrRel r nb) (fun ev => evOk ev = true ∧ validEv r ev = true)
+    (fun m s ev m' s' out gh hr hv hs => step_adrRel g r m m' s s' ev out gh nb hr hv hs)
+    (m, rs) ms' (evs.zip outs) dg hr (fun x hx => hv x.1 (List.of_mem_zip hx).1) hc
+
+/-- the automaton of a freshly initialised device: ADR on, data rate 0 -/
+def auto0 : Auto := { ackOwed := false, adrOn := true, cnt := 0, dr := 0 }
+
+theorem history_header_bits_init {σ} (g : Rng σ) (r : RegionId) (maxPower : Nat) (gain : Int) (hg : gainOk r gain = true) (rs : σ)
+    (evs : List Ev) (hv : ∀ ev ∈ evs, evOk ev = true ∧ validEv r ev = true) (ms' : MacState × σ) (outs : List Out)
+    (h : run g (MacState.init (RegionState.init r) maxPower gain, rs) evs = .ok (ms', outs)) :
+    TraceR (AdrStep r true) (none, auto0) (evs.zip outs) := by
+  refine history_header_bits g r true _ rs (none, auto0) ?_ evs hv ms' outs h
+  obtain ⟨h1, h2, h3, _⟩ := C08.ansRel_init r maxPower gain hg
+  exact ⟨h1, h2, h3, rfl, rfl, fun _ => noBias_init r, fun s hs => by cases hs⟩
+
+/-! non-vacuity: 97 uplinks without any downlink at DR3 in EU868 — ADRACKReq from the 65th on, the
+data rate steps down once (at 96); a confirmed downlink then restarts the count and is ACKed once -/
+def lcg : Rng Nat := fun x => ((x * 1103515245 + 12345) / 65536, x * 1103515245 + 12345)
+
+def up : Ev := .uplink [1] 1 false none none none 51 51
+def cdl : Option (RxView × Int) :=
+  some (.data { len := 14, confirmed := true, fcnt16 := 1, micFcnt := some 1, fopts := [], fport := some 1, payload := [1] }, 5)
+
+def demoHistory : List Ev :=
+  [.joinAbp 7 1 2, .setDr 3] ++ List.replicate 97 up ++ [.uplink [1] 1 false none cdl none 51 51, up, up]
+
+def bits (outs : List Out) : List (Bool × Bool × Bool) :=
+  outs.filterMap (fun o => match o with | .up so _ _ => some (so.frame.ack, so.frame.adr, so.frame.adrAckReq) | _ => none)
+
+example : ∀ ev ∈ demoHistory, evOk ev = true ∧ validEv .EU868 ev = true := by decide +kernel
+example : (run lcg (MacState.init (RegionState.init .EU868) 14 0, 1) demoHistory).toOption.map
+      (fun r => (r.1.1.cfg.dataRate, ((bits r.2).drop 63).take 3, (bits r.2).drop 97)) =
+    some (2, [(false, true, false), (false, true, true), (false, true, true)],
+          [(false, true, true), (true, true, false), (false, true, false)]) := by decide +kernel
+example : AdrRel .EU868 true (MacState.init (RegionState.init .EU868) 14 0) (none, auto0) := by
+  obtain ⟨h1, h2, h3, _⟩ := C08.ansRel_init .EU868 14 0 (by decide)
+  exact ⟨h1, h2, h3, rfl, rfl, fun _ => noBias_init _, fun s hs => by cases hs⟩
 end C12
 
 #print axioms C12.header_refines
@@ -135,3 +949,11 @@ end C12
 #print axioms C12.setAdr_refines
 #print axioms C12.adrAckReq_iff
 #print axioms C12.stepdown_only_at
+#print axioms C12.step_adrRel
+#print axioms C12.history_header_bits
+#print axioms C12.history_header_bits_init
+#print axioms C12.answers_adr
+#print axioms C12.macSend_txAt
+#print axioms C12.selectTxChannel_nobias
+#print axioms C12.step_nobias
+#print axioms C12.macSend_txAt_nobias
